@@ -1,11 +1,13 @@
 (** Single entry point of the extracted model: request -> answer. *)
-From Physt Require Import Sx Merge Calc1D.
+From Physt Require Import Sx Merge Calc1D CalcND Fill.
 
 Definition run (req : sx) : sx :=
   match req with
   | LL [SS "echo"; x] => x
   | LL [SS "mkq"; ZZ n; ZZ (Zpos d)] => QQ (mkq n d)
   | LL [SS "C01"; c; o] => judge_C01 c o
+  | LL [SS "C02"; c; o] => judge_C02 c o
+  | LL [SS "C03"; c; o] => judge_C03 c o
   | LL [SS "C10"; c; o] => judge_C10 c o
   | LL [SS "sumq"; l] => match d_list d_q l with Some qs => QQ (sumq qs) | None => illformed end
   | _ => SS "unknown-request"
